@@ -1318,3 +1318,122 @@ Proof.
     + unfold append. cbn [log]. apply eas_app_one; [exact He|]. cbn [ebody].
       intros j' st' m' Hb. injection Hb as <- _ _. exact Hjin.
 Qed.
+
+(* the system: any actor may take its next atomic step at any time *)
+Inductive sys_step (K : consts) : st * list astate -> st * list astate -> Prop :=
+| sys_step_at s pre a post :
+    sys_step K (s, pre ++ a :: post) (fst (astep K s a), pre ++ snd (astep K s a) :: post).
+Inductive sys_steps (K : consts) : st * list astate -> st * list astate -> Prop :=
+| sys_refl x : sys_steps K x x
+| sys_cons x y z : sys_step K x y -> sys_steps K y z -> sys_steps K x z.
+
+Lemma sys_steps_trans K x y z : sys_steps K x y -> sys_steps K y z -> sys_steps K x z.
+Proof. induction 1 as [|x y' z' H1 H2 IH]; intros H; [exact H|]. econstructor; [exact H1 | apply IH, H]. Qed.
+
+Theorem cinv_steps K x y : sys_steps K x y -> cinv (fst x) (snd x) -> cinv (fst y) (snd y).
+Proof.
+  induction 1 as [|x y z H1 H2 IH]; intros H; [exact H|]. apply IH. destruct H1. cbn [fst snd] in *.
+  apply cinv_step, H.
+Qed.
+
+Lemma ended_in_spawned l : ended_after_spawned l -> incl (ended_ids l) (job_ids l).
+Proof.
+  intros H j Hj. unfold ended_ids in Hj. apply in_flat_map in Hj. destruct Hj as [e [He Hj]].
+  destruct (ebody e) eqn:Eb; try contradiction. destruct Hj as [<-|[]].
+  apply in_split in He. destruct He as [a [b ->]]. rewrite job_ids_app. apply in_or_app. left.
+  eapply H; [reflexivity | exact Eb].
+Qed.
+
+Lemma cinv_init s acts : valid (log s) -> bracket_ok (log s) -> held acts = [] -> cinv s acts.
+Proof.
+  intros Hv [Hj [He Ha]] Hh. unfold cinv. rewrite Hh. cbn [app].
+  repeat split; try assumption. apply ended_in_spawned, Ha.
+Qed.
+Lemma cinv_bracket s acts : cinv s acts -> valid (log s) /\ bracket_ok (log s).
+Proof.
+  intros [Hv [Hj [Hn [_ He]]]]. split; [exact Hv|]. split; [exact Hj|]. split; [|exact He].
+  clear -Hn. induction (held acts) as [|x l IH]; [exact Hn|]. apply IH. cbn [app] in Hn. inversion Hn; assumption.
+Qed.
+
+Lemma held_start calls : held (map AStart calls) = [].
+Proof. induction calls as [|c r IH]; [reflexivity|]. exact IH. Qed.
+
+(* every interleaving of the atomic steps of any number of schedule / auto calls *)
+Theorem concurrent_bracket K s calls s' acts' :
+  valid (log s) -> bracket_ok (log s) ->
+  sys_steps K (s, map AStart calls) (s', acts') ->
+  valid (log s') /\ bracket_ok (log s').
+Proof.
+  intros Hv Hb H. apply (cinv_bracket s' acts').
+  apply (cinv_steps K _ _ H). cbn [fst snd]. apply cinv_init; [exact Hv | exact Hb | apply held_start].
+Qed.
+
+(* the executable scheduler used by the correspondence is one such interleaving *)
+Lemma set_nth_split {A} (l : list A) : forall n a x, nth_error l n = Some a ->
+  exists pre post, l = pre ++ a :: post /\ set_nth n x l = pre ++ x :: post.
+Proof.
+  induction l as [|y l IH]; intros n a x H; [destruct n; discriminate|].
+  destruct n as [|n]; cbn [nth_error set_nth] in *.
+  - injection H as ->. exists [], l. split; reflexivity.
+  - destruct (IH n a x H) as [pre [post [-> E]]]. exists (y :: pre), post. cbn [app]. rewrite E. split; reflexivity.
+Qed.
+
+Lemma astep_steps K s pre a post :
+  sys_steps K (s, pre ++ a :: post) (fst (astep K s a), pre ++ snd (astep K s a) :: post).
+Proof. econstructor; [apply sys_step_at | apply sys_refl]. Qed.
+
+Lemma reads_steps K fuel : forall s pre a post,
+  sys_steps K (s, pre ++ a :: post) (fst (reads K fuel s a), pre ++ snd (reads K fuel s a) :: post).
+Proof.
+  induction fuel as [|f IH]; intros s pre a post; cbn [reads]; [apply sys_refl|].
+  destruct (is_append a || is_done a); [apply sys_refl|].
+  pose proof (astep_steps K s pre a post) as H1. destruct (astep K s a) as [s1 a1]. cbn [fst snd] in H1.
+  eapply sys_steps_trans; [exact H1 | apply IH].
+Qed.
+
+Lemma quantum_steps K s pre a post :
+  sys_steps K (s, pre ++ a :: post) (fst (quantum K s a), pre ++ snd (quantum K s a) :: post).
+Proof.
+  unfold quantum. destruct (is_append a); [|apply reads_steps].
+  pose proof (astep_steps K s pre a post) as H1. destruct (astep K s a) as [s1 a1]. cbn [fst snd] in H1.
+  eapply sys_steps_trans; [exact H1 | apply reads_steps].
+Qed.
+
+Lemma run_sched_steps K : forall schedule s acts,
+  sys_steps K (s, acts) (run_sched K s acts schedule).
+Proof.
+  induction schedule as [|i rest IH]; intros s acts; cbn [run_sched]; [apply sys_refl|].
+  destruct (nth_error acts (N.to_nat i)) as [a|] eqn:E; [|apply IH].
+  destruct (set_nth_split acts (N.to_nat i) a (snd (quantum K s a)) E) as [pre [post [-> Es]]].
+  pose proof (quantum_steps K s pre a post) as H1. destruct (quantum K s a) as [s1 a1]. cbn [fst snd] in *.
+  rewrite Es. eapply sys_steps_trans; [exact H1 | apply IH].
+Qed.
+
+Theorem run_sched_bracket K s calls schedule :
+  valid (log s) -> bracket_ok (log s) ->
+  valid (log (fst (run_sched K s (map AStart calls) schedule)))
+  /\ bracket_ok (log (fst (run_sched K s (map AStart calls) schedule))).
+Proof.
+  intros Hv Hb. pose proof (run_sched_steps K schedule s (map AStart calls)) as H.
+  destruct (run_sched K s (map AStart calls) schedule) as [s' acts']. cbn [fst].
+  eapply concurrent_bracket; eassumption.
+Qed.
+
+(* observed, not excluded: two racing schedule calls both pass the in-flight check, both spawn a job and both
+   create a checkpoint for the same cut point (docs/03_contracts/compaction.md calls this replay-safe: latest wins) *)
+Definition race_call : call := {| c_sched := true; c_stride := 2; c_maxnew := 1; c_block := true; c_exec := true |}.
+Definition race_state : st := fst (run_ops real_consts st0 [OMsg 0 1; OMsg 1 2] []).
+Definition race_end : st := fst (run_sched real_consts race_state [AStart race_call; AStart race_call] [0; 1; 0; 0; 0; 0; 1; 1; 1; 1]).
+Lemma race_facts :
+  valid (log race_state) /\ bracket_ok (log race_state)
+  /\ job_ids (log race_end) = [1; 2] /\ ended_ids (log race_end) = [1; 2]
+  /\ map ck_to (ckpts (log race_end)) = [2; 2]
+  /\ map (fun c => (cp_seq c, cp_done c, cp_ck c)) (cut_points real_consts 2 32 (log race_end)) = [(2, true, Some 10)].
+Proof.
+  split; [apply reachable_valid, valid_st0|]. split.
+  - split; [vm_compute; constructor|]. split; [vm_compute; constructor|].
+    intros a e b j stt m Hd Hb. exfalso.
+    assert (Hin : In e (log race_state)) by (rewrite Hd; apply in_or_app; right; left; reflexivity).
+    vm_compute in Hin. destruct Hin as [<-|[<-|[<-|[]]]]; discriminate.
+  - repeat split; vm_compute; reflexivity.
+Qed.
